@@ -7,10 +7,9 @@ the compiler's reaction (`translate_stmt`), and the store it emits for a variabl
 The table is over *all* targets (every binding form, captured or not, array element, struct field,
 non-variable name) and all six assignment operators.
 
-The property demands a diagnostic for a variable captured by a lambda.  The code has no notion of
-"captured" in the checker and the compiler panics (D20, recorded finding): the full totality
-statement is therefore false of the code as it is; its negation is proved with the witness and the
-`_partial` theorem excludes exactly the captured variables the checker lets through.
+A variable captured by a lambda or task is rejected with a diagnostic (D20 repaired, fdfd074), so the
+table is total: every target × operator yields accept or a diagnostic.  `oldDecision` is the table
+of the code before the repair; `C20_assign_total_old_counterexample` documents that it crashed.
 -/
 namespace Abra.Assign
 
@@ -56,50 +55,60 @@ theorem C20_store_takes_effect (op : AOp) (idx : Nat) (rhs : Int) (frame : List 
   · simp [assignCode, AOp.arith?, newValue, run, step, h]
   all_goals exact hcomp _
 
--- OPEN (false of the code as it is, D20):
---   theorem C20_assign_total (t : Target) (op : AOp) : assignDecision t op ≠ .crash
---   theorem C20_capture_rejected (b : Base) (op : AOp) : assignDecision (.name b true) op = .diagImmutable
--- a variable captured by a lambda and declared with `var` (or a parameter) passes the checker and
--- the compiler panics on the missing offset-table entry.
+/-- Assigning to a captured variable is rejected with a diagnostic, for every binding form and
+    operator (immutable bindings with the `let` message, the others with the capture message). -/
+theorem C20_capture_rejected (b : Base) (op : AOp) :
+    assignDecision (.name b true) op = .diagImmutable ∨ assignDecision (.name b true) op = .diagCaptured := by
+  cases b <;> simp [assignDecision, checker, patMutable]
 
-/-- the witness: `var x = 10   let f = () -> { x = 3 }` -/
-theorem C20_assign_total_counterexample :
-    ¬ (∀ (t : Target) (op : AOp), assignDecision t op ≠ .crash) := by
+/-- Totality: every target × operator yields accept or a diagnostic, never a compiler crash. -/
+theorem C20_assign_total (t : Target) (op : AOp) : assignDecision t op ≠ .crash := by
+  cases t with
+  | name b captured => cases captured <;> cases b <;> simp [assignDecision, checker, patMutable]
+  | elem => simp [assignDecision, checker]
+  | field => simp [assignDecision, checker]
+  | nonVar => simp [assignDecision, checker]
+
+/-- the complete table in one statement -/
+theorem C20_table (t : Target) (op : AOp) :
+    assignDecision t op =
+      match t with
+      | .name .letB _ | .name .forB _ | .name .matchB _ => .diagImmutable
+      | .name .varB c | .name .paramB c | .name .lamParamB c => if c then .diagCaptured else .accept
+      | .elem | .field => .accept
+      | .nonVar => .diagNotVar := by
+  cases t with
+  | name b captured => cases captured <;> cases b <;> rfl
+  | elem => rfl
+  | field => rfl
+  | nonVar => rfl
+
+/-- before fdfd074 (D20): `var x = 10   let f = () -> { x = 3 }` passed the checker and the
+    compiler panicked — the old table was not total, and it crashed exactly on the captured
+    variables the old checker accepted -/
+theorem C20_assign_total_old_counterexample :
+    ¬ (∀ (t : Target) (op : AOp), oldDecision t op ≠ .crash) := by
   intro h; exact h (.name .varB true) .eq rfl
 
-theorem C20_capture_rejected_counterexample :
-    ¬ (∀ (b : Base) (op : AOp), assignDecision (.name b true) op = .diagImmutable) := by
-  intro h; have := h .varB .eq; cases this
-
-/-- Totality outside the recorded finding: unless the target is a captured variable that the checker
-    accepts (`var`, parameter), every target × operator yields accept or a diagnostic. -/
-theorem C20_assign_total_partial (t : Target) (op : AOp)
-    (h : ∀ b, t = .name b true → patMutable b = some false) :
-    assignDecision t op ≠ .crash := by
+theorem C20_old_crash_iff (t : Target) (op : AOp) :
+    oldDecision t op = .crash ↔ ∃ b, t = .name b true ∧ patMutable b ≠ some false := by
   cases t with
-  | name b captured =>
-    cases captured with
-    | false => cases b <;> simp [assignDecision, checker, patMutable, compilerPanics]
-    | true =>
-      have := h b rfl
-      cases b <;> simp_all [assignDecision, checker, patMutable]
-  | elem => simp [assignDecision, checker, compilerPanics]
-  | field => simp [assignDecision, checker, compilerPanics]
-  | nonVar => simp [assignDecision, checker]
+  | name b captured => cases captured <;> cases b <;> simp [oldDecision, patMutable]
+  | elem => simp [oldDecision]
+  | field => simp [oldDecision]
+  | nonVar => simp [oldDecision]
 
-/-- and the crash happens *only* there -/
-theorem C20_crash_iff (t : Target) (op : AOp) :
-    assignDecision t op = .crash ↔ ∃ b, t = .name b true ∧ patMutable b ≠ some false := by
+/-- the repair changed the table only there -/
+theorem C20_old_agrees (t : Target) (op : AOp) (h : oldDecision t op ≠ .crash) :
+    assignDecision t op = oldDecision t op := by
   cases t with
-  | name b captured =>
-    cases captured <;> cases b <;> simp [assignDecision, checker, patMutable, compilerPanics]
-  | elem => simp [assignDecision, checker, compilerPanics]
-  | field => simp [assignDecision, checker, compilerPanics]
-  | nonVar => simp [assignDecision, checker]
+  | name b captured => cases captured <;> cases b <;> simp_all [oldDecision, assignDecision, checker, patMutable]
+  | elem => rfl
+  | field => rfl
+  | nonVar => rfl
 
 /-! ### non-vacuity -/
-example : (∀ b, Target.name Base.letB true = .name b true → patMutable b = some false) := by
-  intro b h; cases h; rfl
+example : oldDecision (.name .letB true) .add ≠ .crash := by decide
 example : run [7, 10, 9] [] (assignCode .sub 1 3) = .ok [7, 7, 9] [] := by rfl
 example : run [7, 10, 9] [] (assignCode .div 1 0) = .err .divZero := by rfl
 example : (1 : Nat) < [7, 10, 9].length := by decide
